@@ -1614,6 +1614,16 @@ static void run_c07(const Case &c, XorShift &x) {
     // abandoned iterators
     if (!obj_dead && !skip("extract_table")) { StrsR r = op_extract_strs(o, "", 2, "extract_table", 1 + x.below(3)); (void)r; cur->labels.insert("iterator_abandoned"); }
     if (!obj_dead && has_prefix(o.kind) && !skip("extract_prefix")) { std::string p = c.S[x.below((uint32_t)c.S.size())].substr(0, 1); if (!xbw_too_costly(o, c, p, false)) op_extract_strs(o, p, 0, "extract_prefix", 1); }
+    // the empty pattern is a well-formed (NUL-terminated) argument too: the searches must come back
+    // (iterators are drained up to the usual runaway bound; what they yield is not judged here)
+    if (!obj_dead && has_prefix(o.kind)) {
+      if (!skip("locate_prefix")) { op_locate_ids(o, "", false, "locate_prefix"); cur->labels.insert("empty_pattern_search"); }
+      if (!obj_dead && !skip("extract_prefix")) op_extract_strs(o, "", 0, "extract_prefix");
+    }
+    if (!obj_dead && has_substr(o, c)) {
+      if (!skip("locate_substr")) op_locate_ids(o, "", true, "locate_substr");
+      if (!obj_dead && !skip("extract_substr")) op_extract_strs(o, "", 1, "extract_substr");
+    }
     // a second save and a query afterwards
     std::string im;
     bool sv = false;
